@@ -9,6 +9,9 @@ Check protocol (DESIGN §3.4):  run_check.py <Cxx> --tier quick|thorough
  5 oracle         property-level probes on the real code: a small fixed set on every quick run
                   (this is where known findings are re-observed), the full search when 1-4 broke
                   and always in the thorough tier
+ 5b history       the same fixed probe set once more, in a fresh child process AFTER a "previous life" of that
+                  process (harness/history.py: the public API used with non-default options on the same grids) —
+                  module-level memos, in-place updates of cached arrays and other hidden state show only there
  6 verdict        exit 0 / "VIOLATION property=<id> replay=<path>[ no-failing-input-found]" exit 1
 """
 from __future__ import annotations
@@ -82,6 +85,13 @@ def main():
             broken.append(("audit", "leanchecker rejected the compiled module: " + out[-400:]))
             discharged = 0
 
+    # 5b (started here, collected after 5): the history pass runs beside the correspondence
+    hist_proc = None
+    if driver_ok and os.environ.get("VERIF_NO_HISTORY") != "1":
+        import subprocess
+        hist_proc = subprocess.Popen([sys.executable, os.path.join(HERE, "history.py"), pid, ctx.tier, str(ctx.seed)],
+                                     stdout=subprocess.PIPE, stderr=subprocess.DEVNULL, text=True, cwd=C.VERIF)
+
     # 4 correspondence
     if driver_ok:
         try:
@@ -111,6 +121,32 @@ def main():
     except Exception as e:
         broken.append(("oracle", f"oracle exception {type(e).__name__}: {e}\n" + traceback.format_exc()[-1200:]))
 
+    # 5b history pass: collect
+    history_info = {"ran": 0}
+    if hist_proc is not None:
+        try:
+            hout, _ = hist_proc.communicate(timeout=1500 if ctx.tier == "quick" else 3000)
+            line = [l for l in hout.splitlines() if l.startswith("HISTORY-RESULT ")]
+            if line:
+                hres = json.loads(line[-1][len("HISTORY-RESULT "):])
+                history_info = {"ran": hres.get("ran", 0), "disturbed": hres.get("disturbed", 0),
+                                "failures": [f.get("key") for f in hres.get("failures", [])], "error": hres.get("error")}
+                have = {f["key"] for f in failures}
+                for f in hres.get("failures", []):
+                    if f.get("key") in have:
+                        continue
+                    f["history"] = ctx.seed
+                    f["what"] = "after a previous life of the process (history pass, harness/history.py): " + str(f.get("what"))
+                    failures.append(f)
+                if hres.get("error"):
+                    ctx.notes.append("history pass: oracle exception " + str(hres["error"])[:300])
+            else:
+                ctx.notes.append(f"history pass produced no result (rc={hist_proc.returncode})")
+        except Exception as e:  # noqa: BLE001  (timeout or unreadable output: recorded, never an alarm by itself)
+            with contextlib.suppress(Exception):
+                hist_proc.kill()
+            ctx.notes.append(f"history pass not completed: {type(e).__name__}")
+
     # 6 verdict
     known = C.load_known_findings()
     known_keys = {f["key"]: f for f in known.get("findings", []) if f.get("property") == pid}
@@ -125,6 +161,7 @@ def main():
     for f in violations:
         path = C.write_replay(pid, {"property": pid, "kind": "failing-input", "key": f["key"], "what": f["what"],
                                     "probe": f.get("probe"), "args": f.get("args"), "observed": f.get("observed"),
+                                    "history": f.get("history"),
                                     "broken_obligations": [f"{k}: {d}" for k, d in broken][:10]})
         print(f"VIOLATION property={pid} replay={os.path.relpath(path, C.VERIF)}")
         exit_code = 1
@@ -141,6 +178,7 @@ def main():
         "translator_span_hashes": trans_hashes,
         "broken_obligations": [f"{k}: {d}"[:300] for k, d in broken],
         "oracle_failures": [f["key"] for f in failures],
+        "history_pass": history_info,
         "driver_requests": ctx.driver.requests if ctx.driver else 0,
         "notes": ctx.notes,
     }
